@@ -747,6 +747,7 @@ func (s *Scanner) tokSEMICOLON() token.Token {
 // and thus relative to the file set.
 func (s *Scanner) Scan() (t types.Token) {
 scanAgain:
+	unitEnd := s.offset // a pending unit ends here, before any white space
 	s.skipWhitespace()
 
 	// current token start
@@ -756,7 +757,7 @@ scanAgain:
 	insertSemi := false
 	if s.unitVal != "" { // number with unit
 		insertSemi = true
-		t.Pos -= token.Pos(len(s.unitVal))
+		t.Pos = s.file.Pos(unitEnd - len(s.unitVal))
 		t.Tok, t.Lit = token.UNIT, s.unitVal
 		s.unitVal = ""
 		goto done
